@@ -46,7 +46,10 @@ def acceptable(expect, got):
 
 def run(ctx):
     t = ctx.tier
-    gpath, g, r = vf.tlc_graph(ctx, 'H2Conn', 'MC_C13_%s.cfg' % t, 'c13graph', timeout=1800)
+    if t == 'thorough':
+        # depth 7 exhaustively for the invariants (28 M transitions: no graph dump), depth 5 on the larger stream set for the replay graph
+        ctx.tlc('H2Conn', 'MC_C13_thorough.cfg', label='exhaustive to depth 7 (invariants and action properties only)', timeout=3000)
+    gpath, g, r = vf.tlc_graph(ctx, 'H2Conn', 'MC_C13_quick.cfg' if t == 'quick' else 'MC_C13_thorough_graph.cfg', 'c13graph', timeout=1800)
     rng = random.Random(ctx.seed)
     sample = 0.012 if t == 'quick' else 0.03
     # only edges taken from a live connection are informative (after a connection error everything is discarded)
